@@ -1334,9 +1334,12 @@ func binaryEngines(r *mon.Run, bin string, f *cacheFile) {
 // ---- Run ---------------------------------------------------------------------------------
 
 func Run(r *mon.Run) {
-	r.Rule = "fault enumeration over ONE freshly generated cache file F (created by sstls.Listen, ≈900 bytes): engine trunc = every prefix length 0…|F|−1; engine corrupt = every byte position × {flip low bit, replace by \\n, delete}, classified by region (comment, cert marker, cert PEM, key marker, key PEM) — `exhaustive` refers to these two enumerations of that one file only; the thorough tier adds engine bitflip = the other seven single-bit flips of every byte of F. Engine compose = a fixed list of multi-member damages built from two caches A and B (cert of A with key of B and vice versa, swapped/duplicated/extra/empty/missing members, PEM chains, CRLF) plus PRNG compositions. Engine perm = nesting depth 1–4 × number of pre-existing directories × umask {000,022}, in a child process per umask. Engines restart (in-process sstls.Listen) and binrestart (real -race binary on a pty) = PRNG histories over {start, stop, delete cache, start with cache path \"\", start below new directories} checked against the model identity[path] = pin served by the creating run; in two histories of three the cache files are created by a library caller (sstls.Listen) asking for another certificate lifespan (1 ns, 1 µs, 1 ms: the certificate has expired by the next start; 1 s, 1 h, 1 d, 100 y), every later start going through the engine's own driver; binfault = a PRNG sample of truncations/single-byte damages replayed through the binary. Oracle for every damaged file: start-up error, or a completed handshake presenting the original public key (identity = canonical PKIX encoding of the key the client parsed; a same key in different SubjectPublicKeyInfo bytes is counted as same_key_but_spki_bytes_differ, not judged); file bytes/inode/mtime/ctime/mode and directory listing unchanged (mtime is back-dated first so granularity cannot hide a rewrite). distinct_nontrivial = distinct damaged file contents per engine (hash; no-op damages excluded) + distinct history signatures (step kinds and paths) + distinct perm configurations"
+	r.Rule = "fault enumeration over ONE freshly generated cache file F (created by sstls.Listen, ≈900 bytes): engine trunc = every prefix length 0…|F|−1; engine corrupt = every byte position × {flip low bit, replace by \\n, delete}, classified by region (comment, cert marker, cert PEM, key marker, key PEM) — `exhaustive` refers to these two enumerations of that one file only; the thorough tier adds engine bitflip = the other seven single-bit flips of every byte of F. Engine compose = a fixed list of multi-member damages built from two caches A and B (cert of A with key of B and vice versa, swapped/duplicated/extra/empty/missing members, PEM chains, CRLF) plus PRNG compositions. Engine perm = nesting depth 1–4 × number of pre-existing directories × umask {000,022}, in a child process per umask. Engines restart (in-process sstls.Listen) and binrestart (real -race binary on a pty) = PRNG histories over {start, stop, delete cache, start with cache path \"\", start below new directories} checked against the model identity[path] = pin served by the creating run; in two histories of three the cache files are created by a library caller (sstls.Listen) asking for another certificate lifespan (1 ns, 1 µs, 1 ms: the certificate has expired by the next start; 1 s, 1 h, 1 d, 100 y), every later start going through the engine's own driver; binfault = a PRNG sample of truncations/single-byte damages replayed through the binary. Oracle for every damaged file: start-up error, or a completed handshake presenting the original public key (identity = canonical PKIX encoding of the key the client parsed; a same key in different SubjectPublicKeyInfo bytes is counted as same_key_but_spki_bytes_differ, not judged); file bytes/inode/mtime/ctime/mode and directory listing unchanged (mtime is back-dated first so granularity cannot hide a rewrite). distinct_nontrivial = distinct damaged file contents per engine (hash; no-op damages excluded) + distinct history signatures (step kinds and paths) + distinct perm configurations + distinct crash cases. Engine crash = REAL interrupted writes instead of planted prefixes: the cache-creating start runs in a child process (vcheck --child=c08die calling sstls.GetCertificate or sstls.Listen in a fresh directory below 0–2 not-yet-existing directories, umask 000/022/077) under RLIMIT_FSIZE = p for EVERY p in 0…|F|+3 (both tiers; thorough three times with other PRNG choices), so the kernel lets exactly p bytes of whatever file the implementation writes through and then either kills the process with SIGXFSZ (mode kill, three cases of five) or fails the write with EFBIG so that the program's own error path runs (mode efbig = what a Go program gets); plus the real binary exec'ed on a pty under the same limit (--child=c08limit; 8/80 cases); plus, when strace can attach (probed; otherwise coverage.crash_strace_dimension says NOT explored), the child under strace -e inject: SIGKILL or ENOSPC/EIO/EDQUOT at the 1st/2nd write, SIGKILL or EIO at rename*/fsync/fdatasync/link*/chmod*, at the 2nd mkdir*, SIGKILL at the 4th–6th close (an expression that matches nothing in the implementation never fires: crash_strace_fault_never_matched). Afterwards nothing is cleaned up except what an operator would do (PRNG: nothing, or deleting the cache file itself) and three later starts (in-process sstls.Listen; the real binary for some binary cases) are judged: no file at the configured path ⇒ the start must succeed, leave an owner-only regular file there and complete a handshake (missing-cache-not-regenerated otherwise, whatever else the dead run left in the directory); a file at the path ⇒ start-up error, or a completed handshake presenting a key whose certificate the harness's own PEM/x509 scan finds in that file (once a start of the case has served from / regenerated the file: exactly that key), and the file's bytes/inode/mtime/ctime/mode unchanged (back-dated first); after the dead run and after every later start every file and directory below the fresh cache directory, leftovers included, must have no group/other permission bits. What each cut-short run left (names, modes) is tallied in coverage.crash_leftovers_seen, how it ended in coverage.crash_how_the_runs_ended"
 	r.Assumptions = []string{
-		"torn writes are modelled as prefixes of the final content (what a crash during os.WriteFile of a new file leaves); reordered block writes are not modelled",
+		"engines trunc/corrupt/compose/binfault model torn writes as prefixes of the final content planted at the configured path (what a crash during os.WriteFile of a new file leaves); engine crash makes no such assumption: the writing process really is killed (SIGXFSZ via RLIMIT_FSIZE after exactly p bytes, SIGKILL injected by strace) or its write really fails (EFBIG, injected ENOSPC/EIO/EDQUOT) and whatever it left is what later runs meet. Power loss with reordered block writes is not modelled",
+		"engine crash: the real binary cannot be killed at byte granularity without a tracer (the Go runtime drops SIGXFSZ, so under RLIMIT_FSIZE its write fails with EFBIG and it exits with an error); deaths mid-write are produced in the library child, which runs the same sstls.GetCertificate/Listen code",
+		"engine crash: a side file left next to the cache by a cut-short run is held to the owner-only clause because it holds (part of) the material destined for the cache, private key included; later starts are free to remove or ignore such leftovers",
+		"engine crash: a later start that fails although the cut-short run reported success (limit not reached) or although an earlier later start already served from the file is inconclusive, as in engine restart",
 		"the pin is computed by the harness from the leaf a crypto/tls client receives; a completed TLS 1.3 handshake proves possession of the matching private key",
 		"an existing zero-length file is an incomplete write (prefix 0), not a missing file",
 		"a binary that does not exit within 20 s of Ctrl+D is inconclusive here (exit behaviour is C20)",
@@ -1346,7 +1349,7 @@ func Run(r *mon.Run) {
 	var bin string
 	var binErr error
 	binDone := make(chan struct{})
-	wantBin := r.WantEngine("binrestart") || r.WantEngine("binfault")
+	wantBin := r.WantEngine("binrestart") || r.WantEngine("binfault") || r.WantEngine("crash")
 	go func() {
 		defer close(binDone)
 		if wantBin {
@@ -1420,6 +1423,17 @@ func Run(r *mon.Run) {
 			r.Logf("binary engines done")
 		}
 	}
+	if r.WantEngine("crash") {
+		nominal := 1000
+		if fa != nil && len(fa.data) > 2 {
+			nominal = len(fa.data)
+		}
+		if binErr != nil {
+			bin = ""
+		}
+		crashEngine(r, bin, nominal)
+		r.Logf("crash done")
+	}
 	if !r.Replaying() {
 		r.Exhaustive(fa != nil) // the prefix and single-byte enumerations of F ran completely (see Rule)
 	}
@@ -1443,4 +1457,20 @@ func Run(r *mon.Run) {
 	r.Floor("binary_starts", 16)
 	r.Floor("perm_checks", 16)
 	r.Floor("dirs_checked", 30)
+	// engine crash: real interrupted writes
+	r.Floor("crash_cases", 800)
+	r.Floor("crash_cases_rlimit-kill", 350)
+	r.Floor("crash_cases_rlimit-efbig", 200)
+	r.Floor("crash_cases_binary-rlimit", 8)
+	r.Floor("crash_runs_died", 350)
+	r.Floor("crash_runs_failed", 200)
+	r.Floor("crash_runs_completed", 2)
+	r.Floor("crash_operator_deleted_cache", 300)
+	r.Floor("crash_later_starts", 2400)
+	r.Floor("crash_later_starts_with_the_cache_missing", 300)
+	r.Floor("crash_later_regenerated", 300)
+	r.Floor("crash_later_starts_with_a_file_at_the_path", 1500)
+	r.Floor("crash_later_same_key", 600)
+	r.Floor("crash_later_error", 600)
+	r.Floor("crash_mode_checks", 3000)
 }
